@@ -56,8 +56,17 @@ def clause_props(clause, diag):
                 props = {"C15", "C06", "C08"}
         else:
             props = {"C07", "C06"}   # stopped growing / capping too early
-    if name in ("decision-not-expected", "call-after-end"):
+    if name == "decision-not-expected":
         props = {"C07", "C06"}
+    if name == "call-after-end":
+        # the implementation goes on where the model has ended or refused
+        err = diag.get("err", "")
+        if "incompatible" in err:
+            props = {"C04", "C15"}       # bonded what the rule excludes
+        elif diag.get("pc") == "error":
+            props = {"C15", "C06"}
+        else:
+            props = {"C07", "C06"}
     return props
 
 
